@@ -232,9 +232,18 @@ fn c13_find_two_partitions() {
     let max_p: usize = kani::any();
     kani::assume(max_p <= 14);
     let mut finder = PrcParameterFinder::default();
-    // dirty scratch from a previous call
-    finder.ps = vec![9, 9, 9];
-    finder.min_ps = vec![7, 7, 7, 7];
+    // dirty scratch from a previous call on a LARGER block (more partitions than this one):
+    // every scratch vector is longer than this call needs and holds arbitrary values
+    let stale: [[u32; 16]; 4] = kani::any();
+    finder.tables = vec![
+        PrcBitTable { p_to_bits: simd::u32x16::from_array(stale[0]) },
+        PrcBitTable { p_to_bits: simd::u32x16::from_array(stale[1]) },
+        PrcBitTable { p_to_bits: simd::u32x16::from_array(stale[2]) },
+        PrcBitTable { p_to_bits: simd::u32x16::from_array(stale[3]) },
+    ];
+    let stale_ps: [usize; 4] = kani::any();
+    finder.ps = vec![stale_ps[0], stale_ps[1], stale_ps[2]];
+    finder.min_ps = vec![stale_ps[3], stale_ps[0], stale_ps[1], stale_ps[2]];
     finder.errors = vec![0xdead_beef; 3];
     let r = finder.find(&signal, 0, max_p);
     let (t0, t1, n) = unsafe { (STUB_TABLES[0], STUB_TABLES[1], STUB_TABLE_COUNT) };
